@@ -29,7 +29,7 @@ from . import lib, runner, callsym, seqsem, c04, c16
 
 AGENTS = ["o1", "o2", "o3"]
 # fluents the plan never touches, of the shapes the property names: zero-arity, two arguments, repeated argument
-EXOTIC_FLUENTS = ["(g)", "(h o2 o1)", "(h o1 o1)"]
+EXOTIC_FLUENTS = ["(g)", "(h o2 o1)", "(h o1 o1)", "(w3 o1 o1 o1)", "(f k)"]  # the last two: an argument three times; a constant
 EXOTIC_ATOMS = ["(r)", "(q o2 o2)"]
 _N = [0]
 
@@ -45,8 +45,8 @@ def _budget():
 
 def _domain_text(kind):
     if kind == "single":
-        return seqsem.ma_domain_text(actions=seqsem.MA_ACTIONS + seqsem.NULLARY_ACTIONS)
-    return seqsem.ma_domain_text()
+        return seqsem.ma_domain_text(const=True, actions=seqsem.MA_ACTIONS + seqsem.NULLARY_ACTIONS)
+    return seqsem.ma_domain_text(const=True)
 
 
 def _scratch():
@@ -169,7 +169,30 @@ def _slice(task, comp):
     return atoms, fluents
 
 
+PROBE_VALUES = [1.25e-05, 4e-08, 123456789.125, -0.000123456789, 1e+16, 0.1 + 0.2, -2.5e-07, 1234567.0]
+
+
+def run_probe(task):
+    """numbers whose TEXT is unusual (exponent notation, many digits): outside the symbolic model (values travel as
+    placeholder tokens), so these are plain concrete round trips, reported as such"""
+    res = {"task": task, "outcome": "held", "paths": 1, "obligations": 1, "cex": None, "reached": 1}
+    comp = seqsem.Composer(_domain_text(task["kind"]), G.OBJECTS)
+    atoms, fluents = _slice(task, comp)
+    a_ = {a: (i % 2 == 0) for i, a in enumerate(atoms)}
+    for shift in range(len(PROBE_VALUES)):
+        f_ = {f: PROBE_VALUES[(i + shift) % len(PROBE_VALUES)] for i, f in enumerate(fluents)}
+        rp = concrete_round_trip(task, a_, f_)
+        if rp.get("disagree"):
+            res["outcome"] = "violation"
+            res["cex"] = {"what": "; ".join(map(str, rp.get("problems") or [rp.get("observed")]))[:400], "atoms": a_, "fluents": f_,
+                          "replay": callsym._jsonable(rp)}
+            break
+    return res
+
+
 def run_round_trip(task):
+    if task.get("probe"):
+        return run_probe(task)
     res = {"task": task, "outcome": "held", "paths": 0, "obligations": 0, "cex": None, "reached": 0}
     stats = Stats()
     try:
@@ -280,9 +303,13 @@ def tasks_for(tier, seed):
     for i, p in enumerate(singles):
         for with_problem in (True, False):
             tasks.append({"kind": "single", "plan": p, "allow": bool((i + with_problem) % 2), "with_problem": with_problem,
-                          "extra_fluents": EXOTIC_FLUENTS[: 1 + i % 3], "extra_atoms": 1 + i % 2,
+                          "extra_fluents": EXOTIC_FLUENTS[: 1 + i % 5], "extra_atoms": 1 + i % 2,
                           "cap": 8 if tier == "quick" else 10, "max_paths": 800 if tier == "quick" else 6000,
                           "sym_atoms": 6 if tier == "quick" else 8})
+    for p, kind in (([("take", ["o1", "o2"]), ("flag", ["o1"])], "single"), ([("charge", ["o2"])], "single")):
+        for with_problem in (True, False):
+            tasks.append({"kind": kind, "plan": p, "allow": True, "with_problem": with_problem, "extra_fluents": EXOTIC_FLUENTS[:3],
+                          "extra_atoms": 1, "probe": True})
     # trajectories that come back to a state they have been in (token-identical text of two states)
     for p in ([("take", ["o1", "o2"]), ("drop", ["o1", "o2"]), ("take", ["o1", "o2"])],
               [("take", ["o1", "o2"]), ("drop", ["o1", "o2"]), ("flag", ["o1"])],
@@ -297,7 +324,7 @@ def tasks_for(tier, seed):
     joints = joints[: (40 if tier == "quick" else 300)]
     for i, j in enumerate(joints):
         plan = [j] if i % 2 else [j, rng.choice(joints)]
-        tasks.append({"kind": "joint", "plan": plan, "with_problem": bool(i % 3), "extra_fluents": EXOTIC_FLUENTS[: 1 + i % 3],
+        tasks.append({"kind": "joint", "plan": plan, "with_problem": bool(i % 3), "extra_fluents": EXOTIC_FLUENTS[: 1 + i % 5],
                       "extra_atoms": 1 + i % 2, "cap": 8 if tier == "quick" else 10, "max_paths": 800 if tier == "quick" else 6000,
                       "sym_atoms": 6 if tier == "quick" else 8})
     return tasks
